@@ -497,7 +497,7 @@ def run_case(scratch: str, case: Dict[str, Any], chooser_factory: Callable[[S.Sc
             op = dict(op)
             if op["kind"] == "delete_snapshot":
                 order = res.initial["log_order"]
-                op["id"] = {"old": order[0], "current": res.initial["current"]}.get(op.get("which"), op.get("id"))
+                op["id"] = {"old": order[0], "second": order[min(1, len(order) - 1)], "current": res.initial["current"]}.get(op.get("which"), op.get("id"))
             handle = forkimage.fork_image(t0, [store, sc]) if forked else shared
             a = sc.spawn(f"A{i}", make_actor(root, op, handle, op.get("style", "with")))
             if inject and a.name in inject:
